@@ -3,6 +3,9 @@ package main
 // Bounded enumeration of acyclic CFG paths with branch polarity (DESIGN appendix B, E5 "paths").
 
 import (
+	"fmt"
+	"go/token"
+
 	"golang.org/x/tools/go/ssa"
 )
 
@@ -61,12 +64,24 @@ func PathsTo(fn *ssa.Function, target *ssa.BasicBlock) (paths []CFGPath, ok bool
 				ok = false
 				return
 			}
-			paths = append(paths, CFGPath{append([]*ssa.BasicBlock(nil), blocks...), append([]PathCond(nil), conds...)})
+			if Feasible(conds) {
+				paths = append(paths, CFGPath{append([]*ssa.BasicBlock(nil), blocks...), append([]PathCond(nil), conds...)})
+			}
 			return
 		}
 		if ifi, isIf := lastInstr(b).(*ssa.If); isIf && len(b.Succs) == 2 && b.Succs[0] != b.Succs[1] {
+			// a condition that is a phi of a block on this path (short-circuit && / || stored in a
+			// variable) is resolved through the predecessor actually taken
+			cond := resolvePhiOnPath(ifi.Cond, blocks)
 			for i, s := range b.Succs {
-				conds = append(conds, PathCond{ifi.Cond, i == 0})
+				if k, isConst := ConstBool(cond); isConst {
+					if k != (i == 0) {
+						continue // infeasible branch
+					}
+					dfs(s)
+					continue
+				}
+				conds = append(conds, PathCond{cond, i == 0})
 				dfs(s)
 				conds = conds[:len(conds)-1]
 			}
@@ -78,4 +93,101 @@ func PathsTo(fn *ssa.Function, target *ssa.BasicBlock) (paths []CFGPath, ok bool
 	}
 	dfs(fn.Blocks[0])
 	return paths, ok
+}
+
+// Feasible rejects paths that take contradictory outcomes of the same test: the same condition
+// value with both polarities, or two comparisons of the same operands that cannot both hold.
+// (Pure bookkeeping on comparison outcomes of identical SSA operands; no arithmetic.)
+func Feasible(conds []PathCond) bool {
+	truth := map[ssa.Value]bool{}
+	type key struct{ x, y string }
+	ops := map[key][]token.Token{}
+	id := func(v ssa.Value) string {
+		if k, ok := v.(*ssa.Const); ok {
+			return "const:" + k.String()
+		}
+		return fmt.Sprintf("%p", v)
+	}
+	for _, pc := range conds {
+		if t, ok := truth[pc.V]; ok && t != pc.Truth {
+			return false
+		}
+		truth[pc.V] = pc.Truth
+		cm, ok := CmpOf(pc.V, pc.Truth)
+		if !ok {
+			continue
+		}
+		k := key{id(cm.X), id(cm.Y)}
+		op := cm.Op
+		if _, ok := ops[key{id(cm.Y), id(cm.X)}]; ok {
+			k = key{id(cm.Y), id(cm.X)}
+			op = flipOp(op)
+		}
+		for _, prev := range ops[k] {
+			if contradict(prev, op) {
+				return false
+			}
+		}
+		ops[k] = append(ops[k], op)
+	}
+	return true
+}
+
+func contradict(a, b token.Token) bool {
+	sat := func(op token.Token) [3]bool { // outcomes: x<y, x==y, x>y
+		switch op {
+		case token.LSS:
+			return [3]bool{true, false, false}
+		case token.LEQ:
+			return [3]bool{true, true, false}
+		case token.GTR:
+			return [3]bool{false, false, true}
+		case token.GEQ:
+			return [3]bool{false, true, true}
+		case token.EQL:
+			return [3]bool{false, true, false}
+		case token.NEQ:
+			return [3]bool{true, false, true}
+		}
+		return [3]bool{true, true, true}
+	}
+	sa, sb := sat(a), sat(b)
+	for i := 0; i < 3; i++ {
+		if sa[i] && sb[i] {
+			return false
+		}
+	}
+	return true
+}
+
+func resolvePhiOnPath(v ssa.Value, blocks []*ssa.BasicBlock) ssa.Value {
+	for steps := 0; steps < 8; steps++ {
+		phi, ok := v.(*ssa.Phi)
+		if !ok {
+			return v
+		}
+		pos := -1
+		for i := len(blocks) - 1; i >= 0; i-- {
+			if blocks[i] == phi.Block() {
+				pos = i
+				break
+			}
+		}
+		if pos <= 0 {
+			return v
+		}
+		pred := blocks[pos-1]
+		found := false
+		for i, p := range phi.Block().Preds {
+			if p == pred {
+				v = phi.Edges[i]
+				found = true
+				break
+			}
+		}
+		if !found {
+			return v
+		}
+	}
+	return v
 }
